@@ -8,7 +8,7 @@ import cen_rules as CR
 import census as C
 
 LEVEL = "other"
-TECHNIQUE = "provenance of the single new_v5 call (namespace initialiser chain and data argument), enumeration of all constructions of ProguardMapping, ambient-source scan; feature configuration `uuid`"
+TECHNIQUE = "canonical evaluation of uuid() (helpers, locals and lazy_static plumbing evaluated away) compared with the reference term; canonical evaluation of every function constructing a ProguardMapping; mapping wiring; ambient-source scan; feature configuration `uuid`"
 EXPLANATION = ("Decided in the `uuid` feature configuration (extracted by the compiler with --features uuid): ProguardMapping::uuid is a "
                "single call Uuid::new_v5(NS, X); X is the field `source` of self, and every construction of ProguardMapping in the crate "
                "stores a byte slice untouched (new: the argument itself; section: a sub-slice of source selected by the caller's range; "
